@@ -5,13 +5,18 @@ package props
 
 import (
 	"bytes"
+	"context"
 	"fmt"
+	"sync"
 	"testing"
+	"testing/synctest"
+	"time"
 
 	"github.com/arloliu/go-secs/v2/hsms"
 	"github.com/arloliu/go-secs/v2/secs2"
 	"verif/harness/ev"
 	"verif/harness/ref/e37"
+	"verif/harness/vt"
 )
 
 func TestC03SizeCap(t *testing.T) {
@@ -76,4 +81,78 @@ func TestC03SizeCap(t *testing.T) {
 			t.Fatalf("VERIF-VIOLATION: C03 violated: round trip of a message of length %d changed the bytes", L)
 		}
 	}
+}
+
+// TestC04WireCap: the same lengths arriving on a CONNECTION (the stream reader has its own bound
+// check): a frame of exactly the cap is a message like any other; one byte more ends the link.
+func TestC04WireCap(t *testing.T) {
+	defer ev.Flush()
+	ev.Rule("a Selected HSMS-SS connection (passive and active, virtual time); the raw peer writes one data frame with length field L = cap-1, cap (2^24-1), cap+1, cap+2 and exactly L bytes following (body: one Binary item filling the frame); oracle: L <= cap: the handler receives one message whose body has L-10 bytes and the link still answers a Linktest; L > cap: nothing is delivered and the link is dropped; non-trivial = all")
+	vt.Bubble(t, func(t *testing.T) {
+		const capLen = e37.MaxLen
+		for _, active := range []bool{false, true} {
+			for _, L := range []int{capLen - 1, capLen, capLen + 1, capLen + 2} {
+				w, err := newWorld(worldOpt{active: active, connOpts: []hsms.ConnOption{hsms.WithT3(time.Second), hsms.WithT8(5 * time.Second), hsms.WithT7(time.Hour)}})
+				if err != nil {
+					t.Fatalf("VERIF-INFRA: %v", err)
+				}
+				var mu sync.Mutex
+				var got []int
+				w.conn.AddDataMessageHandler(func(m *hsms.DataMessage, _ hsms.SECS2Endpoint) {
+					mu.Lock()
+					got = append(got, m.BodyLen())
+					mu.Unlock()
+				})
+				if err := w.conn.Open(context.Background(), hsms.OpenBackground); err != nil {
+					t.Fatalf("VERIF-INFRA: %v", err)
+				}
+				p, err := w.peerUp(time.Second)
+				if err != nil {
+					t.Fatalf("VERIF-INFRA: %v", err)
+				}
+				if err := w.selectAsPeer(p, 99); err != nil {
+					t.Fatalf("VERIF-INFRA: %v", err)
+				}
+				n := L - 10 - 4
+				frame := make([]byte, 0, 4+L)
+				frame = append(frame, byte(L>>24), byte(L>>16), byte(L>>8), byte(L))
+				frame = append(frame, 0xff, 0xff, 0x01, 0x01, 0, 0, 0, 0, 0x12, 0x34)
+				frame = append(frame, 0x23, byte(n>>16), byte(n>>8), byte(n))
+				frame = append(frame, make([]byte, n)...)
+				done := make(chan struct{})
+				go func() { defer close(done); _ = p.SendRaw(frame) }()
+				time.Sleep(time.Second)
+				synctest.Wait()
+				mu.Lock()
+				delivered := append([]int(nil), got...)
+				mu.Unlock()
+				eof, _, _ := p.EOF()
+				outcome := "rejected"
+				if L <= capLen {
+					outcome = "accepted"
+					if len(delivered) != 1 || delivered[0] != L-10 {
+						t.Fatalf("VERIF-VIOLATION: C04 violated (active=%v): a frame with length field %d (cap %d) arriving on a Selected connection produced deliveries %v, want one message with a %d-byte body (link dropped: %v)", active, L, capLen, delivered, L-10, eof)
+					}
+					if eof || !barrier(p, 5, time.Second) {
+						t.Fatalf("VERIF-VIOLATION: C04 violated (active=%v): after a frame of length %d (<= cap) the link is no longer usable", active, L)
+					}
+				} else {
+					if len(delivered) != 0 {
+						t.Fatalf("VERIF-VIOLATION: C04 violated (active=%v): a frame with length field %d (> cap %d) was delivered", active, L, capLen)
+					}
+					if !eof {
+						t.Fatalf("VERIF-VIOLATION: C04 violated (active=%v): a frame with length field %d (> cap %d) did not end the link", active, L, capLen)
+					}
+				}
+				ev.Case(true, fmt.Sprint(active, L), func() any { return map[string]any{"active": active, "length_field": L, "expected": outcome} }, "c04cap:"+outcome)
+				_ = w.conn.Close()
+				p.Close()
+				if w.ln != nil {
+					_ = w.ln.Close()
+				}
+				<-done
+				synctest.Wait()
+			}
+		}
+	})
 }
